@@ -281,6 +281,8 @@ def check(run, replay=None):
         mc, gen, rnd = stage_cfgs(pid, run.tier, rng)
         nrand = {"quick": 12, "thorough": 80}[run.tier]
         glimit = {"quick": 1500, "thorough": 12000}[run.tier]
+        if pid == "C06" and not th:
+            nrand, glimit = 8, 1000         # the property with the most stages: keep the quick tier near a minute
         grng = random.Random(rng.random())
         # (1) exhaustive model checking of the I models against the P predicates and (2) schedule generation: independent TLC runs
         tasks = [lambda: stage_mc(run, pid, [dict(c) for c in mc], d)]
@@ -342,28 +344,25 @@ def check(run, replay=None):
         t0 = time.time()
         traces = pipe_run.run_schedules(binp, scheds, d, tag="x")
         t1 = time.time()
-        cand = [t for t in traces if t["cfg"]["kind"] in pipe_run.STAGE_KINDS]
-        sample = cand if len(cand) <= (2500 if th else 240) else rng.sample(cand, 2500 if th else 240)
-        # (4) TRACE-P judges (the verdict) and, concurrently, (5) TRACE-I: the recorded executions of the stage family must be
-        # behaviours of Stage.tla (the binding; a rejection is SPEC-DRIFT, not a verdict)
-        (viols, results), bound = par([lambda: pipe_run.judge(traces, d), lambda: pipe_run.bind_stage(sample, d) if sample else None], 2)
+        # (4) TRACE-P judges (the verdict) and, concurrently, (5) TRACE-I: the recorded executions must be behaviours of the
+        # implementation-shaped models (the binding; a rejection is SPEC-DRIFT, not a verdict)
+        brng = random.Random(rng.random())
+        (viols, results), bound = par([lambda: pipe_run.judge(traces, d), lambda: bind_all(traces, d, brng, th)], 2)
         log("phase: %d schedules executed in %.1fs, judged + bound in %.1fs" % (len(scheds), t1 - t0, time.time() - t1))
         for r in results:
             run.add_mc("PipeTraceP", r, {"traces": "batch"})
         run.traces += len(traces)
         report(run, pid, scheds, traces, viols)
-        if bound:
-            acc, rej, bres = bound
+        for model, (sample, acc, rej, bres) in bound.items():
             for r in bres:
-                run.add_mc("StageTraceI", r, {"traces": "batch"})
-            run.notes["trace_I_accepted"] = acc
-            run.notes["trace_I_rejected"] = len(rej)
+                run.add_mc(model + "TraceI", r, {"traces": "batch"})
+            run.notes.setdefault("trace_I", {})[model] = {"validated": len(sample), "accepted": acc, "rejected": len(rej)}
             for i, hw in rej[:10]:
                 t = sample[i]
-                run.drift.append("trace=%s/%s at=window %d (%s): the model cannot explain %s with snapshot %s" % (
+                run.drift.append("trace=%s/%s at=window %d (%s): the model %s cannot explain %s with snapshot %s" % (
                     ("fork." if t["cfg"]["forked"] else "pipe.") + t["cfg"]["kind"], t.get("origin"), hw + 1,
-                    cmd_str(t["wins"][hw]["cmd"]) if hw < len(t["wins"]) else "-", json.dumps(t["wins"][hw]["done"])[:200] if hw < len(t["wins"]) else "", json.dumps(t["wins"][hw]["q"]) if hw < len(t["wins"]) else ""))
-            log("phase: TRACE-I %d stage traces, %d accepted, %d rejected" % (len(sample), acc, len(rej)))
+                    cmd_str(t["wins"][hw]["cmd"]) if hw < len(t["wins"]) else "-", model, json.dumps(t["wins"][hw]["done"])[:200] if hw < len(t["wins"]) else "", json.dumps(t["wins"][hw]["q"]) if hw < len(t["wins"]) else ""))
+            log("phase: TRACE-I %s: %d traces, %d accepted, %d rejected" % (model, len(sample), acc, len(rej)))
         if pid == "C09":
             race_pass(run, scheds, d, rng, th)
         kinds = collections.Counter((t["cfg"]["kind"], t.get("origin", "")) for t in traces)
@@ -382,7 +381,7 @@ def check(run, replay=None):
 def clocked_models(run, pid, th, d, rng):
     """MC + GEN on the models of the stages outside Stage.tla: Gen (Emit, Unfold), JoinStage, Throttle.
     Returns (tasks, collect): independent TLC runs and a function turning their results into schedules."""
-    lim = 4000 if th else 500
+    lim = 4000 if th else (300 if pid == "C06" else 500)
     tasks, post = [], []
     if pid in ("C06", "C07", "C11"):
         modes = (("pure", []), ("try", [1]), ("lift", [1])) if pid != "C07" else (("try", [0, 2]), ("try", [1]), ("lift", [1]), ("lift", [0]))
@@ -421,6 +420,19 @@ def clocked_models(run, pid, th, d, rng):
         tasks.append(lambda: model_mc(run, "Throttle", pid, t3, d, maxt=5 if th else 4, qstep=True))
         tasks.append(lambda: [dict(x, epilogue="cancel" if pid == "C06" else "drain") for x in model_gen(run, "Throttle", t3[:2], d, r3, lim, maxt=4, maxsched=12 if th else 10)])
     return tasks
+
+
+def bind_all(traces, d, rng, th):
+    import trace_i
+    out = {}
+    for model in trace_i.MODELS:
+        cand = [t for t in traces if trace_i.eligible(model, t)]
+        lim = 2000 if th else 100
+        sample = cand if len(cand) <= lim else rng.sample(cand, lim)
+        if sample:
+            acc, rej, res = trace_i.bind(model, sample, d)
+            out[model] = (sample, acc, rej, res)
+    return out
 
 
 def cmd_str(c):
